@@ -183,7 +183,7 @@ def uncoarsegrain_ok(shape, im, envs=None):
     return True
 
 
-def simulate_with_map(shape, mode):
+def simulate_with_map(shape, mode, tunit=0):
     """simulate(..., cgmap=...) through the real build: the identity map reproduces the plain simulation sample by sample; a
     grouping map gives a trajectory of the ORIGINAL shape whose per-species totals equal those of the plain run at every sample
     (pure diffusion, Euler) and whose system / script are the original ones"""
@@ -202,12 +202,18 @@ def simulate_with_map(shape, mode):
         chem[n + 1] = 1
     sysm = RDSystem(net, RDGridSpace(w=w, h=h, d=d, cell_env=envs, cell_vol=8.0), state=st, chemostats=chem)
     ts = [0.0, 0.5, 1.0]
+    if tunit:
+        # the sample times carry their own time unit (the script's is the second): same physical times
+        unit, fac = [("ms", 1e-3), ("min", 60.0)][tunit - 1]
+        ts = UnitArray([t / fac for t in ts], unit)
     plain = simulate(sysm, ts, engine=real_engine("euler"), time_step=0.125)
     cg = list(range(n)) if mode == 0 else [k // 2 for k in range(n)]
     out = simulate(sysm, ts, engine=real_engine("euler"), cgmap=cg, time_step=0.125)
     a, b = [float(v) for v in plain.data.value], [float(v) for v in out.data.value]
     if len(a) != len(b) or list(out.t.value) != list(plain.t.value) or out.system.space.size() != n:
         return False
+    if len(a) != 3 * 2 * n or any(abs(float(t) * (1.0 if not tunit else float(UnitValue(1.0, str(out.t.units)).convert("s").value)) - w) > 1e-6 for t, w in zip(out.t.value, [0.0, 0.5, 1.0])):
+        return False                        # three samples, at the requested physical times
     if mode == 0:
         return all(abs(x - y) <= 1e-9 * (1 + abs(x)) for x, y in zip(a, b))
     ns = 2
